@@ -24,6 +24,8 @@ VERIF = os.path.dirname(os.path.dirname(os.path.abspath(__file__)))
 REPO = os.environ.get("VERIF_REPO", "/repo")
 EIGEN = "/usr/include/eigen3"
 NCPU = int(os.environ.get("VERIF_JOBS", "16"))
+# evidence goes to /verif/evidence; development runs against patched copies of the repository (bin/mutrun) redirect it
+EVIDENCE_DIR = os.environ.get("VERIF_EVIDENCE_DIR", os.path.join(VERIF, "evidence"))
 
 sys.path.insert(0, os.path.join(VERIF, "lib"))
 
@@ -357,14 +359,24 @@ def finish(ctx, spec, binaries):
     """Replay, match known findings, write evidence, print verdict lines, return the exit code."""
     known = load_known()
     seen_known = {}
+    groups = {}
     for cand in ctx.candidates:
         k = match_known(known, ctx.pid, cand)
         if k is not None:
             seen_known.setdefault(k["id"], (k, 0))
             seen_known[k["id"]] = (k, seen_known[k["id"]][1] + 1)
             continue
+        # one replay per (case, obligation, site): the other paths of the same class are counted, not replayed again
         key = (cand["case"], cand["name"], cand.get("site"), cand.get("scope"))
+        if key in groups:
+            groups[key]["more"] += 1
+            continue
+        groups[key] = cand
+        cand["more"] = 0
+    for key, cand in groups.items():
         ok, detail = replay_candidate(ctx, binaries, cand)
+        if cand["more"]:
+            detail += " (+%d further paths with the same failing obligation)" % cand["more"]
         if ok:
             path = write_replay_file(ctx, cand, detail)
             ctx.violations.append(dict(cand, replay=path, replay_detail=detail))
@@ -427,8 +439,8 @@ def finish(ctx, spec, binaries):
     extra = spec.get("extra_coverage")
     if extra:
         ev["coverage"].update(extra)
-    os.makedirs(os.path.join(VERIF, "evidence"), exist_ok=True)
-    with open(os.path.join(VERIF, "evidence", ctx.pid + ".json"), "w") as f:
+    os.makedirs(EVIDENCE_DIR, exist_ok=True)
+    with open(os.path.join(EVIDENCE_DIR, ctx.pid + ".json"), "w") as f:
         json.dump(ev, f, indent=1)
     # verdict lines
     for k, n in seen_known.values():
@@ -479,8 +491,8 @@ def main():
         ev = {"property_id": a.pid, "tier": a.tier, "seed": seed, "level": "other", "wall_s": round(time.time() - ctx.t0, 2), "violations": 0,
               "coverage": {"explanation": "harness %s failed to compile against the current tree; nothing was decided" % e.name,
                            "obligations": 0, "discharged": 0}}
-        os.makedirs(os.path.join(VERIF, "evidence"), exist_ok=True)
-        with open(os.path.join(VERIF, "evidence", a.pid + ".json"), "w") as f:
+        os.makedirs(EVIDENCE_DIR, exist_ok=True)
+        with open(os.path.join(EVIDENCE_DIR, a.pid + ".json"), "w") as f:
             json.dump(ev, f, indent=1)
         return 2
 
